@@ -1,8 +1,8 @@
 #!/usr/bin/env python3
-"""Regenerates /verif/MANIFEST.json from checks.json (+ properties.jsonl for the not_applicable remainder)."""
+"""Regenerates /verif/MANIFEST.json from checks.d/*.json (+ properties.jsonl for the not_applicable remainder)."""
 import json, os
 V = os.path.dirname(os.path.dirname(os.path.abspath(__file__)))
-reg = json.load(open(os.path.join(V, "checks.json")))
+reg = {fn[:-5]: json.load(open(os.path.join(V, "checks.d", fn))) for fn in sorted(os.listdir(os.path.join(V, "checks.d"))) if fn.endswith(".json")}
 props = [json.loads(l) for l in open(os.path.join(V, "properties.jsonl"))]
 na_reasons = json.load(open(os.path.join(V, "not_applicable.json"))) if os.path.exists(os.path.join(V, "not_applicable.json")) else {}
 checks = []
